@@ -1,13 +1,16 @@
 package gen
 
 import (
+	"strconv"
 	"strings"
 	"time"
 
 	"github.com/nyaruka/gocommon/dates"
+	"github.com/nyaruka/goflow/assets/static"
 	"github.com/nyaruka/goflow/envs"
 	"github.com/nyaruka/goflow/excellent/functions"
 	"github.com/nyaruka/goflow/excellent/types"
+	"github.com/nyaruka/goflow/flows"
 	"github.com/shopspring/decimal"
 
 	"verif/internal/fw"
@@ -47,7 +50,29 @@ func Env(r *fw.Rand) envs.Environment {
 	if r.Chance(0.3) {
 		b = b.WithInputCollation(envs.CollationArabicVariants)
 	}
-	return b.Build()
+	env := b.Build()
+	if r.Chance(0.5) {
+		env = LocationEnv(env)
+	}
+	return env
+}
+
+const locationsJSON = `[{"name":"Rwanda","aliases":["Ruanda"],"children":[
+ {"name":"Kigali City","aliases":["Kigali","Kigari","Capital","D"],"children":[{"name":"Gasabo","aliases":["Central","12"],"children":[{"name":"Gisozi","aliases":["Hill"]},{"name":"Ndera","aliases":["Hill"]}]},{"name":"Nyarugenge","aliases":["Central"],"children":[]}]},
+ {"name":"Eastern Province","aliases":["Capital","hello World"],"children":[{"name":"Gatsibo","aliases":["Central"],"children":[{"name":"Kageyo","aliases":["12","D"]}]}]}]}]`
+
+// LocationEnv wraps env with a location resolver over a small hierarchy in which several locations of one level share
+// an alias and some aliases are texts of the value pool.
+func LocationEnv(env envs.Environment) envs.Environment {
+	src, err := static.NewSource([]byte(`{"locations":` + locationsJSON + `}`))
+	if err != nil {
+		panic(err)
+	}
+	hs, err := src.Locations()
+	if err != nil {
+		panic(err)
+	}
+	return flows.NewAssetsEnvironment(env, flows.NewLocationAssets(hs))
 }
 
 // Context builds the standard evaluation context whose paths are listed in ctxPaths.
@@ -81,10 +106,14 @@ func Context(r *fw.Rand) *types.XObject {
 		"categories":  types.NewXArray(types.NewXText("Red")),
 		"input":       str(),
 		"extra":       types.NewXObject(map[string]types.XValue{"n": num(), "s": str()}),
+		// a result object without these two is not accepted as a result by the router tests that take one
+		"node_uuid":  types.NewXText("f3b9a1c2-5d64-4e0f-8a77-0c1d2e3f4a5b"),
+		"created_on": types.NewXDateTime(dt),
 	})
 	intent := types.NewXObject(map[string]types.XValue{
 		"name": types.NewXText("Intent"), "value": types.NewXText("book_flight"), "category": types.NewXText("Success"),
-		"extra": types.JSONToXValue([]byte(`{"intents":[{"name":"book_flight","confidence":0.5},{"name":"book_hotel","confidence":0.25}],"entities":{"location":[{"value":"Quito","confidence":1.0}]}}`)),
+		"extra":     types.JSONToXValue([]byte(ClassificationJSON(r))),
+		"node_uuid": types.NewXText("f3b9a1c2-5d64-4e0f-8a77-0c1d2e3f4a5b"), "created_on": types.NewXDateTime(dt),
 	})
 	m := map[string]types.XValue{
 		"foo":     num(),
@@ -148,7 +177,8 @@ func ValuePool() []types.XValue {
 		types.NewXDate(dates.NewDate(2020, 2, 29)),
 		types.NewXTime(dates.NewTimeOfDay(23, 59, 59, 999999999)),
 		types.NewXArray(dec("3"), types.NewXText("x"), nil, types.NewXArray()),
-		types.NewXObject(map[string]types.XValue{"__default__": types.NewXText("dflt"), "name": types.NewXText("Bob"), "value": types.NewXText("v"), "category": types.NewXText("Cat"), "extra": types.JSONToXValue([]byte(`{"intents":[{"name":"x","confidence":0.5}],"a":[1,{"b":null}]}`))}),
+		types.NewXObject(map[string]types.XValue{"__default__": types.NewXText("dflt"), "name": types.NewXText("Bob"), "value": types.NewXText("v"), "category": types.NewXText("Cat"), "extra": types.JSONToXValue([]byte(`{"intents":[{"name":"x","confidence":0.5}],"a":[1,{"b":null}]}`)),
+			"node_uuid": types.NewXText("f3b9a1c2-5d64-4e0f-8a77-0c1d2e3f4a5b"), "created_on": types.NewXDateTime(time.Date(2020, 2, 29, 12, 0, 0, 0, time.UTC))}),
 	}
 }
 
@@ -159,6 +189,8 @@ func ExtraValues() []types.XValue {
 		types.NewXFunction("", func(env envs.Environment, args ...types.XValue) types.XValue { return types.NewXArray(args...) }),
 		types.XArrayEmpty, types.XObjectEmpty,
 		types.NewXText(" "), types.NewXText("Y"), types.NewXText("h"), types.NewXText("YYYY-MM-DD"), types.NewXText("tt:mm"), types.NewXText("UTC"),
+		types.NewXText("10:30"), types.NewXText("2:15 pm"), types.NewXText("at 23:59:59.5"), types.NewXText("tt:mm:ss"), types.NewXText("h:mm aa"), types.NewXText("s"), types.NewXText("M"),
+		types.NewXText("Kigali"), types.NewXText("I live in Gasabo, kigali"), types.NewXText("Rwanda > Kigali City"), types.NewXText("Rwanda > Kigali City > Gasabo"), types.NewXText("Capital"), types.NewXText("Central"), types.NewXText("Hill"),
 		types.NewXText("+12065551212"), types.NewXText("tel:+12065551212"), types.NewXText("image/jpeg:http://x.io/a.jpg"), types.NewXText("(["), types.NewXText("a*"),
 		types.NewXText(`{"a":[1,2,{"b":null}]}`), types.NewXText("-0"), types.NewXText("1e5"), types.NewXText("٣"),
 		types.NewXText("Ⱥ"), types.NewXText("ȺȾ"), types.NewXText("ⱥⱦ"), types.NewXText("İstanbul"), types.NewXText("ſ"), types.NewXText("ŉ"), types.NewXText("ẞ"), types.NewXText("ǅ"),
@@ -172,4 +204,86 @@ func ExtraValues() []types.XValue {
 		types.NewXObject(map[string]types.XValue{"uuid": types.NewXText("b7cf0d83-f1c9-411c-96fd-c511a4cfa86d"), "name": types.NewXText("Testers")}),
 		types.NewXArray(types.NewXObject(map[string]types.XValue{"uuid": types.NewXText("b7cf0d83-f1c9-411c-96fd-c511a4cfa86d"), "name": types.NewXText("Testers")})),
 	}
+}
+
+// ClassificationNames are the intent names used by generated classifications and by generated has_intent calls.
+var ClassificationNames = []string{"book_flight", "book_hotel", "", "x", "Book_Flight"}
+
+// ClassificationJSON is the JSON a classifier result keeps in its extra: mostly well-formed with every legal
+// emptiness (no intents, no entities, an entity without candidates, missing members), sometimes of the wrong shape.
+func ClassificationJSON(r *fw.Rand) string {
+	confidence := func() string {
+		return fw.Pick(r, []string{"0.5", "0.25", "1", "1.0", "0", "0.9", "0.4000000001", "-1", "2", "1e-30", "null", `"0.5"`})
+	}
+	intent := func() string {
+		switch r.Intn(10) {
+		case 0:
+			return `{}`
+		case 1:
+			return `{"name":` + strconv.Quote(fw.Pick(r, ClassificationNames)) + `}`
+		case 2:
+			return fw.Pick(r, []string{`null`, `"book_flight"`, `1`, `[]`})
+		default:
+			return `{"name":` + strconv.Quote(fw.Pick(r, ClassificationNames)) + `,"confidence":` + confidence() + `}`
+		}
+	}
+	candidate := func() string {
+		switch r.Intn(8) {
+		case 0:
+			return `{}`
+		case 1:
+			return fw.Pick(r, []string{`null`, `"Quito"`, `1`, `{"value":null}`, `{"value":1}`})
+		default:
+			return `{"value":` + strconv.Quote(fw.Pick(r, []string{"Quito", "", "May 21", "日本語"})) + `,"confidence":` + confidence() + `}`
+		}
+	}
+	list := func(item func() string, weights ...int) string {
+		n := r.Weighted(weights)
+		parts := make([]string, n)
+		for i := range parts {
+			parts[i] = item()
+		}
+		return "[" + strings.Join(parts, ",") + "]"
+	}
+	var members []string
+	switch r.Intn(12) {
+	case 0: // no intents member
+	case 1:
+		members = append(members, `"intents":`+fw.Pick(r, []string{`null`, `{}`, `"x"`, `1`}))
+	default:
+		members = append(members, `"intents":`+list(intent, 2, 4, 4, 2))
+	}
+	switch r.Intn(12) {
+	case 0: // no entities member
+	case 1:
+		members = append(members, `"entities":`+fw.Pick(r, []string{`null`, `[]`, `"x"`, `{"location":null}`, `{"location":"Quito"}`, `{"location":{}}`}))
+	default:
+		n := r.Weighted([]int{2, 4, 3, 1})
+		ents := make([]string, n)
+		for i := range ents {
+			ents[i] = strconv.Quote([]string{"location", "date", "", "Location 2"}[i]) + ":" + list(candidate, 3, 4, 2)
+		}
+		members = append(members, `"entities":{`+strings.Join(ents, ",")+`}`)
+	}
+	if r.Chance(0.2) {
+		members = append(members, `"other":[1,{"b":null}]`)
+	}
+	return "{" + strings.Join(members, ",") + "}"
+}
+
+// ClassificationResult is a result-shaped object whose extra is a generated classification.
+func ClassificationResult(r *fw.Rand) *types.XObject {
+	m := map[string]types.XValue{
+		"__default__": types.NewXText("book_flight"),
+		"name":        types.NewXText("Intent"), "value": types.NewXText("book_flight"), "category": types.NewXText(fw.Pick(r, []string{"Success", "Skipped", "Failure"})),
+		"node_uuid": types.NewXText("f3b9a1c2-5d64-4e0f-8a77-0c1d2e3f4a5b"), "created_on": types.NewXDateTime(time.Date(2020, 2, 29, 12, 0, 0, 0, time.UTC)),
+	}
+	switch r.Intn(10) {
+	case 0: // no extra at all
+	case 1:
+		m["extra"] = fw.Pick(r, []types.XValue{nil, types.XTextEmpty, types.XArrayEmpty, types.XObjectEmpty, types.NewXText(ClassificationJSON(r))})
+	default:
+		m["extra"] = types.JSONToXValue([]byte(ClassificationJSON(r)))
+	}
+	return types.NewXObject(m)
 }
